@@ -13,7 +13,12 @@
   C20.DEDUP  add_metric: unknown components return before any state change; the duplicate scan
              dominates the append and the stream update with no await in between; the resampling
              actor's _subscribe tests and inserts without an await; get_or_create creates only
-             when the key is absent.
+             when the key is absent.  The category lookup answers None for an id the API does not list:
+             on the absent side of every membership test of the id it neither raises nor reads the
+             id's slot, and every exit there returns None (so add_metric's "unknown -> return" is live).
+  C20.REQ    where the data-sourcing actor is built, its request receiver (a Broadcast receiver: drops
+             its oldest message when full) holds at least what the request receiver of every actor that
+             is handed this actor's request sender holds (a missing `limit=` is the library default).
 
 Roles are bound by dataflow, not by local names: the *message loop* is the `async for` of
 _handle_data_stream, the *message* its target, the *fan-out function* the closure/private method that
@@ -1481,7 +1486,348 @@ def check_dedup(run: Run, prog: Program, ro: Roles) -> None:
               "subscription requests are not processed sequentially", node=ds.node, file=ds.file)
 
 
+# ======================================================================================== unknown ids: the lookup answers None
+_CATCHES_KEYERROR = {"KeyError", "LookupError", "Exception", "BaseException"}
+
+
+def _none_when_absent(v: ast.AST | None, key: str) -> bool:
+    """The returned value is None for an id that is in no mapping: `None`, nothing, `M.get(key[, None])`,
+    or the absent arm of `... if key in M else ...`."""
+    if v is None or (isinstance(v, ast.Constant) and v.value is None):
+        return True
+    if isinstance(v, ast.Call) and isinstance(v.func, ast.Attribute) and v.func.attr == "get" and not v.keywords \
+            and v.args and u(v.args[0]) == key and _rooted_at_self(u(v.func.value)):
+        return len(v.args) == 1 or (len(v.args) == 2 and _none_when_absent(v.args[1], key))
+    if isinstance(v, ast.IfExp):
+        pol = presence(v.test, key, u(v.test.comparators[0])) if isinstance(v.test, ast.Compare) and len(v.test.comparators) == 1 else None
+        if pol is not None:
+            return _none_when_absent(v.orelse if pol == 1 else v.body, key)
+    return False
+
+
+def check_unknown_lookup(run: Run, prog: Program, ro: Roles) -> None:
+    """"requests for unknown components have no effect" starts in the category lookup: add_metric takes its
+    `is None` exit only if the lookup *answers* None for an id the API does not list.  An unknown id is on the
+    absent side of every membership test of that id; on that side the lookup may neither raise nor read the
+    id's slot, and every way out returns None."""
+    lk0 = prog.resolve_method(ro.cls, ro.lookup)
+    if lk0 is None or len(lk0.params) < 2:
+        raise AnalysisError(f"C20: the component-category lookup `{ro.lookup}` was not found")
+    run.analysed(lk0.qual)
+    lk = splice(prog, lk0, ro.names)
+    cfg = CFG(lk.node, lk.file)
+    x = Expander(lk.node)
+    key = lk.params[1]
+    parents = parent_map(lk.node)
+
+    def cont_of(t: ast.AST) -> str | None:
+        """The mapping a membership test of `key` is about (any polarity)."""
+        if isinstance(t, ast.UnaryOp) and isinstance(t.op, ast.Not):
+            return cont_of(t.operand)
+        if isinstance(t, ast.Compare) and len(t.ops) == 1:
+            if isinstance(t.ops[0], (ast.In, ast.NotIn)) and u(t.left) == key:
+                return u(t.comparators[0])
+            for side in (t.left, t.comparators[0]):
+                if isinstance(side, ast.Call) and isinstance(side.func, ast.Attribute) and side.func.attr == "get" \
+                        and len(side.args) == 1 and u(side.args[0]) == key:
+                    return u(side.func.value)
+        return None
+
+    guards: list[tuple[int, str, int]] = []  # (test node, mapping, polarity)
+    for t in cfg.nodes:
+        if t.kind == "test" and t.ast is not None:
+            e = expand_at(cfg, x, t.id, t.ast)
+            c = cont_of(e)
+            p = presence(e, key, c) if c is not None else None
+            if c is not None and p is not None:
+                guards.append((t.id, c, p))
+    present_edges = {(g, "true" if p == 1 else "false") for g, _c, p in guards}
+
+    def handled(n: ast.AST) -> bool:
+        """A KeyError of this read is caught (and not re-raised) in the lookup itself."""
+        child, cur = n, parents.get(n)
+        while cur is not None and cur is not lk.node:
+            if isinstance(cur, ast.Try) and any(child is s for s in cur.body):
+                for h in cur.handlers:
+                    names = {u(e).split(".")[-1] for e in (h.type.elts if isinstance(h.type, ast.Tuple) else [h.type])} if h.type is not None else None
+                    if (names is None or names & _CATCHES_KEYERROR) and not any(isinstance(r, ast.Raise) for b in h.body for r in ast.walk(b)):
+                        return True
+            child, cur = cur, parents.get(cur)
+        return False
+
+    def in_guarded_arm(n: ast.AST, cont: str) -> bool:
+        """The read sits in the present arm of a conditional expression that tests the id."""
+        child, cur = n, parents.get(n)
+        while cur is not None and not isinstance(cur, ast.stmt):
+            if isinstance(cur, ast.IfExp) and child is not cur.test:
+                pol = presence(x.expand(cur.test), key, cont)
+                if pol is not None and (child is cur.body) == (pol == 1):
+                    return True
+            child, cur = cur, parents.get(cur)
+        return False
+
+    # (1) every read of the id's slot in a mapping of the source happens where the id is known to be present
+    n_reads = 0
+    caught_at: list[int] = []
+    for n in cfg.nodes:
+        if n.ast is None:
+            continue
+        for part in own_parts(n):
+            for s in [part, *walk_own(part)]:
+                if not (isinstance(s, ast.Subscript) and isinstance(s.ctx, ast.Load) and x.x(s.slice) == key
+                        and _rooted_at_self(x.x(s.value))):
+                    continue
+                n_reads += 1
+                cont = x.x(s.value)
+                ok = handled(s) or in_guarded_arm(s, cont)
+                if handled(s):
+                    caught_at.append(n.id)  # for an unknown id control continues in the handler, not after the read
+                wit = None
+                for g, c, p in guards:
+                    if ok or c != cont:
+                        continue
+                    absent = branch(cfg, g, "false" if p == 1 else "true")
+                    ok = cfg.path(cfg.entry, [n.id], avoid=[g]) is None and n.id not in cfg.reachable(absent, avoid=[g])
+                if not ok:
+                    wit = cfg.path(cfg.entry, [n.id], edge_ok=lambda a, b, lab: _normal(a, b, lab) and (a, lab) not in present_edges) \
+                        or cfg.path(cfg.entry, [n.id])
+                run.check(ok, "C20.DEDUP", lk0.qual, f"`{u(s)}` read only where `{key} in {cont}` is known",
+                          f"the category lookup reads `{u(s)}` without knowing that the id is in the mapping: for a component id "
+                          "the API does not list this raises KeyError instead of answering None, so add_metric never reaches "
+                          "its `unknown component -> return` exit; the error escapes add_metric and the data-sourcing actor's "
+                          "request loop, the actor is only restarted after its restart delay, and the requests queued behind "
+                          "the bogus one are not served meanwhile - the samples of every message arriving in that window never "
+                          "reach those streams (the same holds for `.pop(id)` / `del` or any unguarded keyed read there)",
+                          node=s, file=lk.file, path=cfg.describe_path(wit),
+                          instance=f"{lk0.qual} :: keyed read of {cont} guarded by membership")
+    # (2) on the absent side of every membership test: no raise, and every exit returns None
+    def absent_ok(a: int, _b: int, lab: str) -> bool:
+        if a in caught_at:
+            return lab == "exc:E" and cfg.nodes[_b].kind == "handler"
+        return _normal(a, _b, lab) and (a, lab) not in present_edges
+
+    region = cfg.reachable([cfg.entry], edge_ok=absent_ok)
+    raises = [n for n in region if isinstance(cfg.nodes[n].ast, ast.Raise) and cfg.nodes[n].kind == "stmt"]
+
+    def returned_values(nid: int) -> list[ast.AST | None]:
+        """What a `return` hands out for an unknown id: its expression, or - for a local bound in several places -
+        the values of the bindings that reach it on the absent side."""
+        v = cfg.nodes[nid].ast.value  # type: ignore[union-attr]
+        if v is None:
+            return [None]
+        if isinstance(v, ast.Name) and x.unstable(v.id) and v.id not in x.params:
+            defs = [d for d in region if d not in caught_at and any(isinstance(w, ast.Name) and w.id == v.id for w in node_writes(cfg, d))]
+            vals: list[ast.AST | None] = []
+            for d in defs:
+                if cfg.path(d, [nid], avoid=[o for o in defs if o != d], edge_ok=absent_ok) is None:
+                    continue
+                a = cfg.nodes[d].ast
+                plain = cfg.nodes[d].kind == "stmt" and ((isinstance(a, ast.Assign) and len(a.targets) == 1 and isinstance(a.targets[0], ast.Name))
+                                                         or (isinstance(a, ast.AnnAssign) and isinstance(a.target, ast.Name) and a.value is not None))
+                vals.append(expand_at(cfg, x, d, a.value) if plain else v)  # type: ignore[union-attr]
+            if cfg.path(cfg.entry, [nid], avoid=defs, edge_ok=absent_ok) is not None or not vals:
+                vals.append(v)  # reaches the return unbound / bound in a way the rule cannot read
+            return vals
+        return [expand_at(cfg, x, nid, v)]
+
+    bad_ret = [n for n in region if n not in caught_at and cfg.nodes[n].kind == "stmt" and isinstance(cfg.nodes[n].ast, ast.Return)
+               and not all(_none_when_absent(v, key) for v in returned_values(n))]
+    ok = cfg.exit in region and not raises and not bad_ret
+    culprit = (raises + bad_ret)[:1]
+    wit = cfg.path(cfg.entry, culprit, edge_ok=absent_ok) if culprit else None
+    what = (f"`{cfg.nodes[raises[0]].text(60)}` raises" if raises else
+            f"`{cfg.nodes[bad_ret[0]].text(60)}` answers something other than None" if bad_ret else "no normal exit is left")
+    run.check(ok, "C20.DEDUP", lk0.qual, "id in no mapping (also after the refresh) -> the lookup returns None",
+              f"for a component id the API does not list the category lookup does not answer None ({what}): add_metric's "
+              "`category is None -> log and return` exit is never taken, so a request for an unknown component is no longer "
+              "without effect - it either raises out of add_metric and the data-sourcing actor's request loop (the requests "
+              "queued behind it wait for the actor's restart and the messages of that window never reach their streams) or "
+              "is filed as a subscription of a component that does not exist",
+              node=cfg.nodes[culprit[0]].ast if culprit else lk.node, file=lk.file, path=cfg.describe_path(wit),
+              instance=f"{lk0.qual} :: unknown id -> None")
+    if not guards and not n_reads and not any(isinstance(c, ast.Call) and isinstance(c.func, ast.Attribute) and c.func.attr == "get"
+                                              for c in walk_own(lk.node)):
+        raise AnalysisError(f"{lk0.qual}: no keyed access of the component id found (the lookup has a shape the rule cannot read)")
+
+
+# ======================================================================================== C20.REQ
+ACTOR_RUN = "microgrid._data_sourcing.data_sourcing:DataSourcingActor._run"
+_LIB_DEFAULT_LIMIT = 50  # frequenz.channels.Broadcast.new_receiver(limit=50); re-read from the installed source when present
+
+
+def _library_default_limit(run: Run) -> int:
+    from ..engine.resolver import find_installed_source
+
+    path = find_installed_source("frequenz.channels._broadcast")
+    if path is not None:
+        try:
+            tree = ast.parse(path.read_text())
+        except (OSError, SyntaxError):
+            tree = None
+        for n in ast.walk(tree) if tree is not None else []:
+            if isinstance(n, ast.ClassDef) and n.name == "Broadcast":
+                for m in n.body:
+                    if isinstance(m, ast.FunctionDef) and m.name == "new_receiver":
+                        a = m.args
+                        pairs = list(zip(a.kwonlyargs, a.kw_defaults)) + list(zip(a.args[len(a.args) - len(a.defaults):], a.defaults))
+                        for arg, d in pairs:
+                            if arg.arg == "limit" and isinstance(d, ast.Constant) and isinstance(d.value, int):
+                                run.assume(f"Broadcast.new_receiver() without `limit` holds {d.value} messages and a full Broadcast "
+                                           "receiver drops its oldest message (read from the installed frequenz.channels source)")
+                                return d.value
+    run.assume(f"Broadcast.new_receiver() without `limit` holds {_LIB_DEFAULT_LIMIT} messages and a full Broadcast receiver "
+               "drops its oldest message (frequenz.channels 1.x; installed source not found)")
+    return _LIB_DEFAULT_LIMIT
+
+
+def _int_value(prog: Program, fn: FuncInfo, e: ast.AST | None, depth: int = 0) -> int | None:
+    """Integer denoted by an expression of module constants (names resolved in the module / class of `fn`)."""
+    if e is None or depth > 6:
+        return None
+    if isinstance(e, ast.Constant) and isinstance(e.value, int) and not isinstance(e.value, bool):
+        return e.value
+    if isinstance(e, ast.Name):
+        return _int_value(prog, fn, fn.module.assigns.get(e.id), depth + 1)
+    if isinstance(e, ast.Attribute) and isinstance(e.value, ast.Name) and e.value.id in ("self", "cls") and fn.cls is not None:
+        return _int_value(prog, fn, fn.cls.class_assigns.get(e.attr), depth + 1)
+    if isinstance(e, ast.BinOp):
+        a, b = _int_value(prog, fn, e.left, depth + 1), _int_value(prog, fn, e.right, depth + 1)
+        if a is None or b is None:
+            return None
+        if isinstance(e.op, ast.Add):
+            return a + b
+        if isinstance(e.op, ast.Sub):
+            return a - b
+        if isinstance(e.op, ast.Mult):
+            return a * b
+        if isinstance(e.op, ast.FloorDiv) and b:
+            return a // b
+    return None
+
+
+class _Inbox:
+    """A receiver built in place: `<channel>.new_receiver([limit=E])`."""
+
+    def __init__(self, prog: Program, fn: FuncInfo, x: Expander, call: ast.Call, default: int) -> None:
+        self.fn, self.call = fn, call
+        self.limit_expr = {k.arg: k.value for k in call.keywords}.get("limit")  # keyword-only interface
+        self.explicit = self.limit_expr is not None
+        lim = x.expand(self.limit_expr) if self.limit_expr is not None else None
+        self.capacity = _int_value(prog, fn, lim) if self.explicit else default
+        self.text = u(lim) if lim is not None else f"<library default {default}>"
+        self.channel = x.expand(call.func.value)  # type: ignore[union-attr]
+
+    @property
+    def drops(self) -> bool:
+        """Built on a Broadcast channel (per-receiver buffer, oldest message dropped on overflow)."""
+        ch = self.channel
+        return isinstance(ch, ast.Call) and u(ch.func).split("[")[0].split(".")[-1] == "Broadcast"
+
+
+def _as_inbox(prog: Program, fn: FuncInfo, x: Expander, e: ast.AST, default: int) -> _Inbox | None:
+    v = x.expand(e)
+    if isinstance(v, ast.Call) and isinstance(v.func, ast.Attribute) and v.func.attr == "new_receiver":
+        return _Inbox(prog, fn, x, v, default)
+    return None
+
+
+def check_request_path(run: Run, prog: Program, ro: Roles) -> None:
+    """Every subscription request handed to the pipeline's request sender reaches add_metric: the data-sourcing
+    actor's inbox is a Broadcast receiver (sending never suspends, a full receiver drops its OLDEST message), so
+    where the actor is built its inbox must hold at least what the inbox of every actor that is handed its
+    request sender holds - such an actor forwards the requests it has queued back-to-back."""
+    ds = prog.func(ACTOR_RUN)
+    actor = ds.cls
+    if actor is None:
+        raise AnalysisError("C20.REQ: the data-sourcing actor class was not found")
+    init = prog.resolve_method(actor, "__init__")
+    dx = Expander(ds.node)
+    loops = [n for n in walk_own(ds.node) if isinstance(n, ast.AsyncFor)]
+    inbox_attr = dx.x(loops[0].iter) if len(loops) == 1 else ""
+    inbox_param = None
+    if init is not None and init.cls is actor:
+        for s in walk_own(init.node):
+            if isinstance(s, (ast.Assign, ast.AnnAssign)) and s.value is not None and isinstance(s.value, ast.Name) \
+                    and s.value.id in init.params and any(u(t) == inbox_attr for t in (s.targets if isinstance(s, ast.Assign) else [s.target])):
+                inbox_param = s.value.id
+    if init is None or inbox_param is None:
+        raise AnalysisError(f"C20.REQ: which constructor parameter of {actor.name} becomes `{inbox_attr}` could not be read")
+    default = _library_default_limit(run)
+    sites: list[tuple[FuncInfo, ast.Call]] = []
+    for fn in prog.all_functions():
+        if actor.name not in fn.module.source and not any(v.endswith(actor.name) for v in fn.module.imports.values()):
+            continue  # (only modules that can name the class are resolved call by call)
+        for c in ast.walk(fn.node):
+            if isinstance(c, ast.Call) and isinstance(c.func, (ast.Name, ast.Attribute)) and any(t is actor for t in prog.resolve_call(fn, c)):
+                sites.append((fn, c))
+    if not sites:
+        run.note(f"C20.REQ: {actor.name} is not constructed inside the package; the capacity of its request receiver is the caller's")
+        run.ok("C20.REQ", f"{actor.qual} :: not constructed in the package")
+        return
+    for fn, call in sites:
+        run.analysed(fn.qual)
+        x = Expander(fn.node)
+        b = bind_call(call, init.params[1:])
+        arg = (b or {}).get(inbox_param)
+        inbox = _as_inbox(prog, fn, x, arg, default) if arg is not None else None
+        if inbox is None or not inbox.drops:
+            raise AnalysisError(f"{fn.qual}: the request receiver handed to {actor.name} is not built in place from a Broadcast "
+                                f"channel (`{u(arg) if arg is not None else '?'}`): its capacity cannot be read")
+        # who is handed this actor's request sender: calls whose argument is a call of the function that builds the actor
+        upstream: list[tuple[FuncInfo, ast.Call, _Inbox]] = []
+        uses = [(g, c) for g in prog.all_functions() if fn.name in g.module.source for c in ast.walk(g.node)
+                if isinstance(c, ast.Call) and (u(c.func) == fn.name or u(c.func).endswith("." + fn.name))
+                and any(t is fn or (isinstance(t, FuncInfo) and t.node is fn.node) for t in prog.resolve_call(g, c))]
+        for caller, use in uses:
+            cx = Expander(caller.node)
+            for k in ast.walk(caller.node):
+                if not isinstance(k, ast.Call) or k is use:
+                    continue
+                args = [*k.args, *[kw.value for kw in k.keywords]]
+                handed = any(a is use or (isinstance(a, ast.Name) and cx.value_of(a.id) is use) for a in args)
+                if not handed:
+                    continue
+                for a in args:
+                    ib = _as_inbox(prog, caller, cx, a, default)
+                    if ib is not None and ib.drops:
+                        upstream.append((caller, k, ib))
+        run.ok("C20.REQ", f"{fn.qual} :: {actor.name}'s request receiver is built in place on a Broadcast channel")
+        for caller, k, ib in upstream:
+            same = ib.text == inbox.text and ib.explicit == inbox.explicit
+            if not same and (inbox.capacity is None or ib.capacity is None):
+                raise AnalysisError(f"{fn.qual}: the capacities `{inbox.text}` (request receiver of {actor.name}) and `{ib.text}` "
+                                    f"(request receiver built in {caller.qual}) are not constants the check can compare")
+            ok = same or (inbox.capacity is not None and ib.capacity is not None and inbox.capacity >= ib.capacity)
+            how = "built without `limit=`, so it has the library default" if not inbox.explicit else f"built with limit={inbox.text}"
+            run.check(ok, "C20.REQ", fn.qual,
+                      f"{actor.name}(…{inbox_param}=….new_receiver({'limit=' + inbox.text if inbox.explicit else ''})) holds at least the "
+                      f"{ib.text} requests of the receiver built in {caller.name}",
+                      f"the request receiver of {actor.name} is {how} and holds {inbox.capacity if inbox.capacity is not None else inbox.text} "
+                      f"requests, fewer than the {ib.capacity if ib.capacity is not None else ib.text} of the request receiver that "
+                      f"`{u(k.func)}` gets in {caller.qual} together with this actor's request sender: a Broadcast sender never "
+                      "suspends and a full Broadcast receiver drops its OLDEST message, so a burst of back-to-back subscription "
+                      "requests that the upstream actor accepts and forwards without yielding silently loses its first requests "
+                      "before add_metric sees them - those streams are subscribed but never get a single sample while the "
+                      "component's messages keep being fanned out to the others (same for a smaller constant, a `limit=1` copied "
+                      "from a status receiver, or a dropped keyword)",
+                      node=call, file=fn.file,
+                      instance=f"{fn.qual} :: request receiver capacity >= upstream capacity ({caller.name})")
+        if not upstream:
+            run.ok("C20.REQ", f"{fn.qual} :: request receiver capacity `{inbox.text}` (no upstream forwarder in the package)")
+
+
 CONTROLS = [
+    ("unknown component id raises instead of answering None", SRC,
+     "        if comp_id in self._comp_categories_cache:\n            return self._comp_categories_cache[comp_id]\n\n        return None\n",
+     "        if comp_id in self._comp_categories_cache:\n            return self._comp_categories_cache[comp_id]\n\n        raise KeyError(comp_id)\n",
+     "C20.DEDUP"),
+    ("category cache read without a membership test after the refresh", SRC,
+     "            self._comp_categories_cache[comp.component_id] = comp.category\n\n        if comp_id in self._comp_categories_cache:\n            return self._comp_categories_cache[comp_id]\n",
+     "            self._comp_categories_cache[comp.component_id] = comp.category\n\n        if self._comp_categories_cache:\n            return self._comp_categories_cache[comp_id]\n",
+     "C20.DEDUP"),
+    ("data-sourcing request receiver smaller than the resampling actor's", "microgrid._data_pipeline",
+     "                request_receiver=channel.new_receiver(limit=_REQUEST_RECV_BUFFER_SIZE),\n",
+     "                request_receiver=channel.new_receiver(limit=100),\n", "C20.REQ"),
     ("fan-out awaited inline", SRC,
      "                sending_tasks.add(asyncio.create_task(process_msg(data), name=name))\n",
      "                await process_msg(data)\n", "C20.ATOM"),
@@ -1537,6 +1883,8 @@ def run_rules(run: Run, prog: Program) -> None:
     check_atom(run, prog, st)
     check_once(run, prog, st)
     check_dedup(run, prog, ro)
+    check_unknown_lookup(run, prog, ro)
+    check_request_path(run, prog, ro)
 
 
 def check(run: Run, prog: Program, tier: str) -> str:
@@ -1545,19 +1893,22 @@ def check(run: Run, prog: Program, tier: str) -> str:
     run.rule("C20.ATOM", "no await between taking a message and creating its independent fan-out task")
     run.rule("C20.ONCE", "API receivers created once and never removed; stream tasks replaced only by cancel-then-register")
     run.rule("C20.DEDUP", "unknown ids change nothing; scan-then-append without await; idempotent subscribe; get_or_create creates only when absent")
+    run.rule("C20.REQ", "the data-sourcing actor's request receiver holds at least what the receivers of the actors that forward to it hold")
     run_rules(run, prog)
+    run.floor("C20.REQ", 1)
     run.floor("C20.TAB", 55)
     run.floor("C20.FAN", 5)
     run.floor("C20.ATOM", 4)
     run.floor("C20.ONCE", 9)
-    run.floor("C20.DEDUP", 7)
+    run.floor("C20.DEDUP", 8)
     from ..engine.controls import run_controls
 
     run_controls(run, CONTROLS, run_rules, tier)
     run.assume("asyncio cancellation is delivered only at awaits; a cancelled stream task that holds no "
                "un-handed-over message loses nothing because the API receiver is kept")
     run.undecided("relative order of the fan-out tasks of consecutive messages (event-loop scheduling); "
-                  "behaviour on receiver overflow")
+                  "behaviour on overflow of the API data receivers; bursts of requests larger than the configured "
+                  "request buffer (only its size relative to the upstream request buffers is decided)")
     return ("Table extraction with a naming rule (metric id -> message field), sibling agreement of the "
             "category dispatch read off enumerated paths, never-between (await) rules on the message "
             "hand-over and the duplicate scan, who-may-write rules on the per-component receiver/task maps; "
